@@ -43,6 +43,9 @@ pub enum Prog {
     /// read back with len(); expect_closed_write.  Nothing of the first stream may show up in the
     /// second (state parked per thread would).
     Successive { second: Vec<usize> },
+    /// the consumer half shared by two threads: one polls is_real_file_ready (with yields), one
+    /// waits in len(); both must come back once the producer is done
+    TwoConsumers,
 }
 
 #[derive(Clone, Debug, Serialize, Deserialize)]
@@ -200,6 +203,30 @@ fn one_execution(s: &Scen) {
             record_outcome(&d1.calls);
             h.join().unwrap();
         }
+        Prog::TwoConsumers => {
+            let (buf, writer) = TempFileBuffer::<Dest>::new(s.inmemory);
+            let h = spawn_producer(writer, chunks.clone(), s.flush_after, s.bufwriter);
+            let buf = loom::sync::Arc::new(buf);
+            let (b1, b2) = (buf.clone(), buf.clone());
+            let poller = loom::thread::spawn(move || {
+                while !b1.is_real_file_ready() {
+                    loom::thread::yield_now();
+                }
+            });
+            let want_len = all.len() as u64;
+            let asker = loom::thread::spawn(move || {
+                let len = b2.len().expect("len failed");
+                assert_eq!(len, want_len, "len() = {} but {} bytes were written", len, want_len);
+            });
+            poller.join().unwrap();
+            asker.join().unwrap();
+            h.join().unwrap();
+            let buf = loom::sync::Arc::try_unwrap(buf).ok().expect("consumer half still shared");
+            let mut out = Dest::new(s.short_dest);
+            buf.expect_closed_write(&mut out).expect("expect_closed_write failed");
+            assert_eq!(out.data, all, "two consumers: copied bytes differ from the bytes written");
+            record_outcome(&out.calls);
+        }
         Prog::NestedSwitch { second, switch_at } => {
             let chunks2 = payload(second, 100);
             let all2: Vec<u8> = chunks2.iter().flatten().cloned().collect();
@@ -268,7 +295,7 @@ fn one_execution(s: &Scen) {
                     assert_eq!(len, all.len() as u64, "len() = {} but {} bytes were written", len, all.len());
                     record_outcome(&[len as usize]);
                 }
-                Prog::Nested { .. } | Prog::NestedSwitch { .. } | Prog::Successive { .. } => unreachable!(),
+                Prog::Nested { .. } | Prog::NestedSwitch { .. } | Prog::Successive { .. } | Prog::TwoConsumers => unreachable!(),
             }
             h.join().unwrap();
         }
@@ -353,6 +380,10 @@ impl Check for C12 {
                         }
                     }
                 }
+            }
+            // two threads on the consumer half
+            for h in hist.iter().filter(|h| h.len() <= 2) {
+                v.push(Scen { writes: h.clone(), flush_after: None, inmemory, prog: Prog::TwoConsumers, bufwriter: false, preemption_bound: Some(3), short_dest: false, interrupt_dest: false });
             }
             // BufWriter-wrapped producer (as in write_data): byte-granular writes regrouped
             for prog in [Prog::SwitchAwait, Prog::LenClosedWrite] {
